@@ -284,8 +284,135 @@ theorem convert_c01_bind_cells (wb : Workbook) (p : Bool) (text : Str) (h : conv
   rw [noBrKids_append, h4, Bool.true_and]
   exact bind_nodes_noBr_of_cells _ f.name rows drows ditems _ _ h3 T.hdec T.hpar
 
+/-! ## 6. inside the end-to-end fragment the condition holds by construction
+
+`Convert.rowOutside` admits only the columns of `fragmentKeys` (seven `bind::` columns, all literal); every other
+`bind::X` header makes `convert` answer `unsupported`.  So for a conversion the model answers, the bind part of the
+hypothesis disappears. -/
+
+theorem fragmentKeys_bind_noBr :
+    fragmentKeys.all (fun k => !startsWith k (l!"bind::") || noBr (k.drop 6)) = true := by decide +kernel
+
+theorem bindHeadersNoBr_of_inside (r : Cells) (h : rowOutside r = none) : bindHeadersNoBr r = true := by
+  cases hc : r.all (fun kv => fragmentKeys.contains kv.1) with
+  | false => unfold rowOutside at h; rw [hc] at h; simp at h
+  | true =>
+    unfold bindHeadersNoBr
+    rw [List.all_eq_true] at hc ⊢
+    intro kv hkv
+    have hm : kv.1 ∈ fragmentKeys := by simpa using hc kv hkv
+    exact (List.all_eq_true.mp fragmentKeys_bind_noBr) kv.1 hm
+
+theorem inside_of_decorate (lists : List Str) (n : Nat) (r : Cells) (kp : RowK × Pay)
+    (h : decorate lists n r = .ok kp) : rowOutside r = none := by
+  unfold decorate at h
+  split at h
+  · cases h
+  · assumption
+
+theorem inside_of_decorateAll (lists : List Str) : ∀ (n : Nat) (rows : List Cells) (ds : List ((Nat × RowK) × Pay)),
+    decorateAll lists n rows = .ok ds → ∀ r ∈ rows, bindHeadersNoBr r = true
+  | _, [], _, _ => by intro r hr; cases hr
+  | n, r :: rs, ds, h => by
+    simp only [decorateAll] at h
+    cases hd : decorate lists n r with
+    | error e => rw [hd] at h; cases h
+    | ok kp =>
+      rw [hd] at h
+      simp only [] at h
+      cases hds : decorateAll lists (n + 1) rs with
+      | error e => rw [hds] at h; cases h
+      | ok ds' =>
+        intro r' hr'
+        rcases List.mem_cons.mp hr' with rfl | hr'
+        · exact bindHeadersNoBr_of_inside _ (inside_of_decorate lists n _ kp hd)
+        · exact inside_of_decorateAll lists (n + 1) rs ds' hds r' hr'
+
+/-- the `<bind>` / `<setvalue>` nodes of every conversion the model answers contain no `]` — no hypothesis -/
+theorem convert_bind_nodes_noBr {wb : Workbook} {doc : Node} {f : Fields} {lists rows drows o ditems}
+    (T : Trace wb doc f lists rows drows o ditems) :
+    noBrKids (bindNodesL (elsOf f.name (dWithMeta f.name rows ditems)) [(f.name, .group)]
+      (dWithMeta f.name rows ditems)) = true :=
+  bind_nodes_noBr_of_cells _ f.name rows drows ditems _ _ (inside_of_decorateAll _ 2 rows drows T.hdec) T.hdec T.hpar
+
+/-- **C01 for the whole conversion, bind hypothesis discharged.**  As `convert_c01_cells` without any hypothesis on the
+    `<bind>` / `<setvalue>` nodes; what remains at node level: header names, the secondary (choice) instances, the body. -/
+theorem convert_c01_binds (wb : Workbook) (p : Bool) (text : Str) (h : convert wb p = .ok text)
+    (hs : ∀ doc f lists rows drows o ditems, Trace wb doc f lists rows drows o ditems →
+      HeaderNoBr f ∧ (∀ r ∈ rows, ∀ x, Rows.get r "name" = some x → TypoFree x) ∧
+      noBrKids ((Choices.staticInsts [] (othersApplied (activeRows rows) lists)).map Choices.instNode) = true ∧
+      noBrKids (bodyNodesL (elsOf f.name (dWithMeta f.name rows ditems)) [f.name] ditems) = true) :
+    holds text (normAttrVal (formId wb)) = true := by
+  refine convert_c01_bind_cells wb p text h ?_
+  intro doc f lists rows drows o ditems T
+  obtain ⟨h1, h2, h4, h5⟩ := hs doc f lists rows drows o ditems T
+  exact ⟨h1, h2, inside_of_decorateAll _ 2 rows drows T.hdec, h4, h5⟩
+
+#print axioms fragmentKeys_bind_noBr
+#print axioms convert_bind_nodes_noBr
+#print axioms convert_c01_binds
 #print axioms type_table_keys_noBr
 #print axioms bind_nodes_noBr_of_cells
 #print axioms convert_c01_bind_cells
+
+end Pyxv.ConvertP
+
+/-! ## non-vacuity -/
+namespace Pyxv.ConvertP
+open Pyxv Pyxv.Form Pyxv.Rows Pyxv.Xml Pyxv.Asm Pyxv.Convert Pyxv.C01
+
+/-- a repeat with a `_count` helper, a question with two `bind::` columns (one prefixed), the meta block -/
+def exBindRows : List Cells :=
+  [ [("type".toList, "begin repeat".toList), ("name".toList, "kids".toList), ("control::jr:count".toList, "3".toList)],
+    [("type".toList, "integer".toList), ("name".toList, "age".toList), ("label".toList, "Age".toList),
+     ("bind::required".toList, "yes".toList), ("bind::jr:requiredMsg".toList, "needed".toList)],
+    [("type".toList, "end repeat".toList)] ]
+
+/-- the same sheet with a `]` in a `bind::` header token -/
+def exBadRows : List Cells :=
+  [ [("type".toList, "integer".toList), ("name".toList, "age".toList), ("label".toList, "Age".toList),
+     ("bind::a]b".toList, "1".toList)] ]
+
+def bindsOf (rows : List Cells) : List Node :=
+  match decorateAll [] 2 rows with
+  | .ok drows =>
+    (match dparse drows with
+     | .ok ditems =>
+       bindNodesL (elsOf "data".toList (dWithMeta "data".toList rows ditems)) [("data".toList, .group)]
+         (dWithMeta "data".toList rows ditems)
+     | .error _ => [])
+  | .error _ => []
+
+def attrNames : Node → List Str
+  | .elem _ a _ => a.map (·.1)
+  | _ => []
+
+set_option maxRecDepth 100000 in
+theorem ex_bind_names : (bindsOf exBindRows).map attrNames =
+    [["nodeset", "type", "readonly", "calculate"], ["nodeset", "type", "required", "jr:requiredMsg"],
+     ["nodeset", "type", "readonly", "jr:preload"]].map (·.map String.toList) := by
+  decide +kernel
+
+example : (∀ r ∈ exBindRows, bindHeadersNoBr r = true) ∧ (bindsOf exBindRows).length = 3 ∧
+    noBrKids (bindsOf exBindRows) = true := by
+  refine ⟨by decide +kernel, by have := congrArg List.length ex_bind_names; simpa using this, ?_⟩
+  unfold bindsOf
+  cases hd : decorateAll [] 2 exBindRows with
+  | error e => exact noBrKids_nil
+  | ok drows =>
+    simp only []
+    cases hp : dparse drows with
+    | error e => exact noBrKids_nil
+    | ok ditems => exact bind_nodes_noBr_of_cells [] _ _ drows ditems _ _ (by decide +kernel) hd hp
+
+/-- the hypothesis of the general lemma is needed: a `bind::a]b` header reaches the `<bind>` node as attribute name
+    `a]b` (such a column is outside `Convert`'s fragment, so this is shown on `bindNode` itself) -/
+example : bindHeadersNoBr (exBadRows.headD []) = false ∧ qOK (rowQ "age".toList (exBadRows.headD [])) = false ∧
+    attrNames (bindNode [] [("data".toList, .group), ("age".toList, .q)] (rowQ "age".toList (exBadRows.headD []))) =
+      ["nodeset", "type", "a]b"].map String.toList ∧
+    noBrTree (bindNode [] [("data".toList, .group), ("age".toList, .q)] (rowQ "age".toList (exBadRows.headD []))) = false := by
+  decide +kernel
+
+example : qOK (rowQ "age".toList (exBindRows.getD 1 [])) = true := qOK_rowQ _ _ (by decide +kernel)
 
 end Pyxv.ConvertP
